@@ -41,6 +41,21 @@ fn script_token(rng: &mut Rng, pool: &[u16], heavy: bool) -> String {
     s
 }
 
+/// a short stream over a small PID pool with scripted handlers (for the chunking suite): (scripts token, packets)
+pub fn scripted_stream(rng: &mut Rng, minp: usize, maxp: usize) -> (String, Vec<Vec<u8>>) {
+    let np = rng.range(2, 3) as usize;
+    let pool = pid_pool(rng, np);
+    let scripts = script_token(rng, &pool, true);
+    let n = rng.range(minp as u64, maxp as u64) as usize;
+    let mut pk: Vec<Vec<u8>> = vec![];
+    while pk.len() < n {
+        let pid = *rng.pick(&pool);
+        let run = if rng.chance(1, 2) { rng.range(2, 4) } else { 1 } as usize;
+        for _ in 0..run { if pk.len() < n { pk.push(rand_packet(rng, pid, 20, 4)); } }
+    }
+    (scripts, pk)
+}
+
 pub fn gen(tier: &str, seed: u64, emit: &mut dyn FnMut(String)) { gen_with(tier, seed, false, emit) }
 pub fn gen_c18(tier: &str, seed: u64, emit: &mut dyn FnMut(String)) { gen_with(tier, seed ^ 0x18, true, emit) }
 
